@@ -125,6 +125,12 @@ def mk_option(val):
     return ('adt', 'core::option::Option', 1, [Cell(val)])
 
 
+class LenInt(int):
+    """the length of an abstract collection under symbolic_len == 'bounded': the scenario's collection stands for collections of
+    that shape and ANY size from the shown one upwards, so a comparison with a constant above the shown size is not decided"""
+    pass
+
+
 def mk_bool(b):
     return ('bool', bool(b))
 
@@ -401,6 +407,10 @@ class Interp:
                     return ('tuple', [Cell(('int', None)), Cell(mk_bool(False))])
                 return ('int', None)
             x, y = a[1], b[1]
+            if op in ('Lt', 'Le', 'Gt', 'Ge', 'Eq', 'Ne') and (isinstance(x, LenInt) != isinstance(y, LenInt)):
+                ln, k = (x, y) if isinstance(x, LenInt) else (y, x)
+                if k > ln:
+                    return ('bool', None)        # a real collection of this shape may be as large as the constant (a batch limit, a threshold)
             if op in ('Lt', 'Le', 'Gt', 'Ge', 'Eq', 'Ne'):
                 return mk_bool({'Lt': x < y, 'Le': x <= y, 'Gt': x > y, 'Ge': x >= y, 'Eq': x == y, 'Ne': x != y}[op])
             if op.endswith('WithOverflow'):
@@ -410,6 +420,12 @@ class Interp:
                 if y == 0:
                     raise PanicPath('division by zero')
                 return ('int', x // y if op == 'Div' else x % y)
+            if op in ('Shl', 'ShlUnchecked', 'Shr', 'ShrUnchecked', 'BitAnd', 'BitOr', 'BitXor') and x >= 0 and y >= 0:
+                if op.startswith('Shl'):
+                    return ('int', (x << y) & ((1 << 64) - 1) if y < 128 else None)
+                if op.startswith('Shr'):
+                    return ('int', x >> y)
+                return ('int', {'BitAnd': x & y, 'BitOr': x | y, 'BitXor': x ^ y}[op])
             try:
                 return ('int', {'Add': x + y, 'Sub': x - y, 'Mul': x * y}[op])
             except KeyError:
@@ -951,7 +967,7 @@ class Interp:
             if seg in ('iter', 'into_iter'):
                 return ('iter', self.as_iter(A[0]))
             if seg == 'len':
-                return ('int', len(st[1]))
+                return ('int', LenInt(len(st[1])) if self.symbolic_len == 'bounded' else len(st[1]))
             if seg == 'is_empty':
                 return mk_bool(not st[1])
             if seg == 'take':
@@ -1185,7 +1201,7 @@ class Interp:
             vi = VARIANTS[ename].index('Occupied' if occ else 'Vacant')
             return ('adt', ename, vi, [Cell(('occ' if occ else 'vac', m, k))])
         if seg == 'len':
-            return ('int', len(m.items))
+            return ('int', LenInt(len(m.items)) if self.symbolic_len == 'bounded' else len(m.items))
         if seg == 'is_empty':
             return mk_bool(not m.items)
         if seg == 'clear':
@@ -1601,6 +1617,8 @@ class Interp:
                 return mk_option(xs.pop()) if xs else mk_option(None)
             if seg == 'len':
                 # (symbolic_len) the abstract collection stands for collections of any size with this shape: its length is not a known number
+                if self.symbolic_len == 'bounded':
+                    return ('int', LenInt(len(xs)))
                 return ('int', None) if (xs and self.symbolic_len) else ('int', len(xs))
             if seg == 'is_empty':
                 return mk_bool(not xs)
